@@ -3,7 +3,7 @@
 EXTENDS Naturals, Sequences, FiniteSets, TLC
 CONSTANTS MaxV, MinC, MaxC,
           Ks,          \* the non-zero exit statuses failing commands may use
-          Hook,        \* subset of {"none", "ok", "fail"}: shapes of the before / after hook
+          Hook,        \* subset of {"none", "ok", "fail", "okok", "okfail", "failok"}: the commands of the before / after hook
           Conds,       \* subset of {"none", "true", "false"}
           MaxFail      \* at most this many failing positions
 VARIABLES nb, na, cond, nv, nc, allow, F, K,              \* configuration
@@ -18,16 +18,22 @@ Init == /\ nb \in Hook /\ na \in Hook /\ cond \in Conds
         /\ pc = "cond" /\ pos = <<1, 1>> /\ trace = <<>> /\ ret = "nil"
         /\ errored = FALSE /\ exitCode = 0 - 1 /\ skipped = FALSE /\ stored = FALSE
 
+\* the commands of a hook shape, in order
+HSeq(h) == CASE h = "none" -> <<>> [] h = "ok" -> <<"ok">> [] h = "fail" -> <<"fail">>
+             [] h = "okok" -> <<"ok", "ok">> [] h = "okfail" -> <<"ok", "fail">> [] OTHER -> <<"fail", "ok">>
+HasFail(h) == \E i \in DOMAIN HSeq(h) : HSeq(h)[i] = "fail"
+FirstFailIdx(h) == CHOOSE i \in DOMAIN HSeq(h) : HSeq(h)[i] = "fail" /\ \A j \in 1..(i - 1) : HSeq(h)[j] = "ok"
+HookToks(tag, n) == [i \in 1..n |-> <<tag, i>>]
 Keep(S) == UNCHANGED S
-\* runner.go:147-156
+\* runner.go checkTaskCondition: any non-zero exit status of the condition (K) skips the task
 Cond == /\ pc = "cond"
         /\ IF cond = "false" THEN skipped' = TRUE /\ pc' = "deferred" ELSE skipped' = skipped /\ pc' = "before"
         /\ UNCHANGED <<cfgv, pos, trace, ret, errored, exitCode, stored>>
-\* runner.go:158-161, 211-239
+\* runner.go before(): the commands in order, the first failing one ends the task with an error
 Before == /\ pc = "before"
-          /\ CASE nb = "none" -> pc' = "jobs" /\ UNCHANGED <<trace, ret>>
-               [] nb = "ok"   -> pc' = "jobs" /\ trace' = Append(trace, <<"b">>) /\ UNCHANGED ret
-               [] nb = "fail" -> pc' = "deferred" /\ trace' = Append(trace, <<"b">>) /\ ret' = "err"
+          /\ IF HasFail(nb)
+               THEN pc' = "deferred" /\ trace' = trace \o HookToks("b", FirstFailIdx(nb)) /\ ret' = "err"
+               ELSE pc' = "jobs" /\ trace' = trace \o HookToks("b", Len(HSeq(nb))) /\ UNCHANGED ret
           /\ UNCHANGED <<cfgv, pos, errored, exitCode, skipped, stored>>
 NextPos == IF pos[2] < nc THEN <<pos[1], pos[2] + 1>> ELSE <<pos[1] + 1, 1>>
 LastPos == pos = <<nv, nc>>
@@ -48,7 +54,7 @@ Store == /\ pc = "store" /\ stored' = TRUE /\ pc' = "after"
          /\ UNCHANGED <<cfgv, pos, trace, ret, errored, exitCode, skipped>>
 \* runner.go:179, 241-269 (failures only logged)
 After == /\ pc = "after"
-         /\ trace' = IF na = "none" THEN trace ELSE Append(trace, <<"a">>)
+         /\ trace' = trace \o HookToks("a", Len(HSeq(na)))              \* every after command is attempted
          /\ pc' = "deferred"
          /\ UNCHANGED <<cfgv, pos, ret, errored, exitCode, skipped, stored>>
 \* runner.go:125-139
@@ -65,21 +71,21 @@ RECURSIVE JobsFrom(_, _)
 JobsFrom(v, c) == IF nc = 0 \/ v > nv THEN <<>>
                   ELSE <<<<"j", v, c>>>> \o (IF c < nc THEN JobsFrom(v, c + 1) ELSE JobsFrom(v + 1, 1))
 AllJobs == JobsFrom(1, 1)
-FullOrder == (IF nb = "none" THEN <<>> ELSE <<<<"b">>>>) \o AllJobs \o (IF na = "none" THEN <<>> ELSE <<<<"a">>>>)
+FullOrder == HookToks("b", Len(HSeq(nb))) \o AllJobs \o HookToks("a", Len(HSeq(na)))
 IsPrefix(s, t) == Len(s) <= Len(t) /\ \A i \in 1..Len(s) : s[i] = t[i]
 FailIdx == {i \in 1..Len(AllJobs) : <<AllJobs[i][2], AllJobs[i][3]>> \in F}
 FirstFail == CHOOSE i \in FailIdx : \A j \in FailIdx : i <= j
 Done == pc = "done"
-Normal == cond # "false" /\ nb # "fail"
+Normal == cond # "false" /\ ~HasFail(nb)
 OrderKept == IsPrefix(trace, FullOrder)
 CondFalseSkips == (Done /\ cond = "false") => trace = <<>> /\ skipped /\ ret = "nil" /\ exitCode = 0 - 1 /\ ~errored
-BeforeFailBlocks == (Done /\ cond # "false" /\ nb = "fail") => trace = <<<<"b">>>> /\ ret = "err"
+BeforeFailBlocks == (Done /\ cond # "false" /\ HasFail(nb)) => trace = HookToks("b", FirstFailIdx(nb)) /\ ret = "err"
 StopsAtFirstFailure == (Done /\ Normal /\ ~allow /\ FailIdx # {}) =>
-      /\ trace = (IF nb = "none" THEN <<>> ELSE <<<<"b">>>>) \o SubSeq(AllJobs, 1, FirstFail)
+      /\ trace = HookToks("b", Len(HSeq(nb))) \o SubSeq(AllJobs, 1, FirstFail)
       /\ ret = "err" /\ errored /\ exitCode = K /\ ~stored
 RunsAll == (Done /\ Normal /\ (allow \/ FailIdx = {})) =>
       /\ trace = FullOrder /\ ret = "nil" /\ ~errored /\ exitCode = 0 /\ stored
-ErrIffFailed == Done => ((ret = "err") <=> (Normal /\ ~allow /\ FailIdx # {}) \/ (cond # "false" /\ nb = "fail"))
+ErrIffFailed == Done => ((ret = "err") <=> (Normal /\ ~allow /\ FailIdx # {}) \/ (cond # "false" /\ HasFail(nb)))
 Terminates == <>Done
 
 \* C07 as stated: the recorded exit status
